@@ -28,10 +28,19 @@ fn xkey(origin: Option<(Fingerprint, DerivationPath)>, path: DerivationPath) -> 
     DefiniteDescriptorKey::new(k).expect("no wildcard")
 }
 
+/// A single (non-extended) key with a key origin: its full derivation path is the origin path.
+fn single_key(path: DerivationPath) -> DefiniteDescriptorKey {
+    use miniscript::descriptor::{SinglePub, SinglePubKey};
+    let raw = unsafe { secp256k1::ffi::PublicKey::from_array_unchecked([7u8; 64]) };
+    let pk = miniscript::bitcoin::PublicKey::new(secp256k1::PublicKey::from(raw));
+    let k = DescriptorPublicKey::Single(SinglePub { origin: Some((Fingerprint::from([0u8; 4]), path)), key: SinglePubKey::FullKey(pk) });
+    DefiniteDescriptorKey::new(k).expect("definite")
+}
+
 fn direct_child_case(nk: usize, na: usize) {
     let kv = [sym::u8_(), sym::u8_()];
     let av = [sym::u8_(), sym::u8_()];
-    let key = xkey(None, path_of(nk, kv));
+    let key = single_key(path_of(nk, kv));
     let asset_path = path_of(na, av);
     let r = miniscript::plan::verif_is_key_direct_child_of(&key, &asset_path);
     let prefix = (na < 1 || kv[0] == av[0]) && (na < 2 || kv[1] == av[1]);
@@ -114,28 +123,3 @@ pub fn c11_parse_num() {
     core::mem::forget(r);
 }
 
-/// expression-tree parser on every string of <= 4 characters over `(){},a#`
-// @h c11_tree_from_str timeout=3000 mem=16 tier=thorough
-#[cfg_attr(kani, kani::proof)]
-#[cfg_attr(kani, kani::unwind(8))]
-pub fn c11_tree_from_str() {
-    let (b, n) = ascii::<4>(b"(){},a");
-    let s = unsafe { core::str::from_utf8_unchecked(&b[..n]) };
-    let r = miniscript::expression::Tree::from_str(s);
-    cover!(r.is_ok(), "parses");
-    cover!(r.is_err(), "rejected");
-    core::mem::forget(r);
-}
-
-/// ... and <= 3 characters (quick tier)
-// @h c11_tree_from_str3 timeout=1500 mem=10
-#[cfg_attr(kani, kani::proof)]
-#[cfg_attr(kani, kani::unwind(7))]
-pub fn c11_tree_from_str3() {
-    let (b, n) = ascii::<3>(b"(){},a");
-    let s = unsafe { core::str::from_utf8_unchecked(&b[..n]) };
-    let r = miniscript::expression::Tree::from_str(s);
-    cover!(r.is_ok(), "parses");
-    cover!(r.is_err(), "rejected");
-    core::mem::forget(r);
-}
